@@ -636,6 +636,38 @@ func errBranch(fd *ast.FuncDecl) []string {
 	return res
 }
 
+// assignments to struct fields (`x.f = v`) in fd, in source order
+func fieldAssigns(fd *ast.FuncDecl) []string {
+	if fd == nil {
+		return nil
+	}
+	var out []string
+	ast.Inspect(fd.Body, func(n ast.Node) bool {
+		if a, ok := n.(*ast.AssignStmt); ok && a.Tok == token.ASSIGN && len(a.Lhs) == 1 {
+			if _, ok := a.Lhs[0].(*ast.SelectorExpr); ok {
+				out = append(out, exprStr(a))
+			}
+		}
+		return true
+	})
+	return out
+}
+
+// break / continue / goto statements in fd, in source order
+func branches(fd *ast.FuncDecl) []string {
+	if fd == nil {
+		return nil
+	}
+	var out []string
+	ast.Inspect(fd.Body, func(n ast.Node) bool {
+		if b, ok := n.(*ast.BranchStmt); ok {
+			out = append(out, exprStr(b))
+		}
+		return true
+	})
+	return out
+}
+
 func leanStr(s string) string { return strconv.Quote(s) }
 
 func leanStrList(l []string) string {
@@ -796,6 +828,36 @@ func main() {
 	o.strs("m3FlushOps", syncOps(findFunc(m3, "reporter", "Flush"), map[string]bool{"reportInternalMetrics": true}), "m3 (*reporter).Flush")
 	o.strs("m3CloseOps", syncOps(findFunc(m3, "reporter", "Close"), nil), "m3 (*reporter).Close")
 	o.strs("m3ProcessComparisons", comparisons(findFunc(m3, "reporter", "process")), "comparisons in m3 (*reporter).process")
+	// C14: complete bodies of the life-cycle functions (hook positions included), the calls made by Flush's
+	// reportInternalMetrics, the queue-size guard and the worker start-up of NewReporter
+	o.strs("m3LifeReportBody", topStmts(findFunc(m3, "reporter", "reportCopyMetric")), "m3 (*reporter).reportCopyMetric: top-level statements")
+	o.strs("m3LifeFlushBody", topStmts(findFunc(m3, "reporter", "Flush")), "m3 (*reporter).Flush: top-level statements")
+	o.strs("m3LifeCloseBody", topStmts(findFunc(m3, "reporter", "Close")), "m3 (*reporter).Close: top-level statements")
+	o.strs("m3LifeTimeLoopBody", topStmts(findFunc(m3, "reporter", "timeLoop")), "m3 (*reporter).timeLoop: top-level statements")
+	o.strs("m3LifeProcessShape", bodyShape(findFunc(m3, "reporter", "process")), "m3 (*reporter).process: signature, statements (range loop expanded one level)")
+	o.strs("m3LifeInternalMetricsOps", syncOps(findFunc(m3, "reporter", "reportInternalMetrics"), map[string]bool{"ReportSamples": true, "ReportCount": true, "ReportGauge": true, "ReportTimer": true, "reportCopyMetric": true}), "m3 (*reporter).reportInternalMetrics: atomic swaps and report calls")
+	o.strs("m3LifeNewReporterOps", syncOps(findFunc(m3, "", "NewReporter"), map[string]bool{"process": true, "timeLoop": true}), "m3 NewReporter: wait-group operations and worker start-up")
+	o.strs("m3LifeNewReporterComparisons", comparisons(findFunc(m3, "", "NewReporter")), "comparisons in m3 NewReporter")
+	o.strs("m3LifeNewReporterMakes", func() []string {
+		var out []string
+		if fd := findFunc(m3, "", "NewReporter"); fd != nil {
+			ast.Inspect(fd.Body, func(n ast.Node) bool {
+				if ce, ok := n.(*ast.CallExpr); ok {
+					if id, ok := ce.Fun.(*ast.Ident); ok && id.Name == "make" && len(ce.Args) > 0 {
+						if _, ok := ce.Args[0].(*ast.ChanType); ok {
+							out = append(out, exprStr(ce))
+						}
+					}
+				}
+				return true
+			})
+		}
+		return out
+	}(), "channels made by m3 NewReporter")
+	o.str("m3LifeErrAlreadyClosed", exprStr(constValue(m3, "errAlreadyClosed")), "m3: errAlreadyClosed")
+	for _, n := range []string{"ReportCount", "ReportGauge", "ReportTimer"} {
+		o.strs("m3LifeCached"+n, topStmts(findFunc(m3, "cachedMetric", n)), "m3 cachedMetric."+n+": top-level statements")
+	}
 
 	// thriftudp
 	o.int("udpMaxLength", constValue(udp, "MaxLength"), udp, "thriftudp: MaxLength")
@@ -808,6 +870,11 @@ func main() {
 	o.strs("udpWriteStringOps", syncOps(findFunc(udp, "TUDPTransport", "WriteString"), udpCalls), "TUDPTransport.WriteString")
 	o.strs("udpWriteStringComparisons", comparisons(findFunc(udp, "TUDPTransport", "WriteString")), "comparisons in TUDPTransport.WriteString")
 	o.strs("udpFlushReturns", returnsIn(findFunc(udp, "TUDPTransport", "Flush")), "TUDPTransport.Flush returns")
+	for _, m := range []string{"Write", "WriteByte", "WriteString", "Flush"} {
+		fd := findFunc(udp, "TUDPTransport", m)
+		o.strs("udp"+m+"Guards", guards(fd), "TUDPTransport."+m+": conditions of the top-level ifs")
+		o.strs("udp"+m+"Assigns", fieldAssigns(fd), "TUDPTransport."+m+": field assignments")
+	}
 	o.strs("udpCloseOps", syncOps(findFunc(udp, "TUDPTransport", "Close"), udpCalls), "TUDPTransport.Close")
 	o.strs("udpCloseComparisons", guards(findFunc(udp, "TUDPTransport", "Close")), "TUDPTransport.Close guard")
 	o.strs("udpIsOpenReturns", returnsIn(findFunc(udp, "TUDPTransport", "IsOpen")), "TUDPTransport.IsOpen")
@@ -816,9 +883,12 @@ func main() {
 		o.strs("udpMulti"+m+"Ops", syncOps(fd, udpCalls), "TMultiUDPTransport."+m+": calls in the loop")
 		o.strs("udpMulti"+m+"Comparisons", comparisons(fd), "TMultiUDPTransport."+m+": comparisons")
 		o.strs("udpMulti"+m+"Returns", returnsIn(fd), "TMultiUDPTransport."+m+": returns")
+		o.strs("udpMulti"+m+"Branches", branches(fd), "TMultiUDPTransport."+m+": break/continue")
 	}
 	m3v2 := parseDir(filepath.Join(root, "m3", "thrift", "v2"))
 	o.strs("m3SendEmitOps", syncOps(findFunc(m3v2, "M3Client", "sendEmitMetricBatchV2"), map[string]bool{"WriteMessageBegin": true, "Write": true, "WriteMessageEnd": true, "Flush": true}), "M3Client.sendEmitMetricBatchV2: protocol calls")
+	o.strs("m3ReporterFlushOps", syncOps(findFunc(m3, "reporter", "flush"), map[string]bool{"EmitMetricBatchV2": true, "Flush": true, "TypeId": true}), "m3 (*reporter).flush: emit, count the error, discard")
+	o.strs("m3ReporterFlushComparisons", comparisons(findFunc(m3, "reporter", "flush")), "m3 (*reporter).flush: comparisons")
 	o.strs("m3SendEmitReturns", returnsIn(findFunc(m3v2, "M3Client", "sendEmitMetricBatchV2")), "M3Client.sendEmitMetricBatchV2: returns")
 
 	// multi (C19): complete bodies of the constructors and of every forwarding method
